@@ -104,6 +104,73 @@ def sites(src_root):
     return res
 
 
+def mapper_functions(all_sites):
+    """functions that turn a foreign error into a coded VTL error: they contain a raise site and their first parameter is
+    the foreign error; the message classes they distinguish are the string constants they test with ``in``"""
+    seen, out = set(), []
+    for s in all_sites:
+        f = s["fn"]
+        if f is None or not f.args.args or f.args.args[0].arg not in ("error", "exc", "e", "err", "exception"):
+            continue
+        if (s["file"], f.name) in seen:
+            continue
+        seen.add((s["file"], f.name))
+        kws = sorted({n.left.value for n in ast.walk(f) if isinstance(n, ast.Compare) and isinstance(n.left, ast.Constant)
+                      and isinstance(n.left.value, str) and any(isinstance(op, ast.In) for op in n.ops)})
+        out.append((s["file"], f.name, [a.arg for a in f.args.args], kws))
+    return out
+
+
+def drive_mapper(rec, file, fname, params, kws):
+    """call the mapper with one message per keyword, per pair of keywords and with none, with / without a component
+    name in the message; whatever it returns or raises must be a VTL exception (constructing it never fails)"""
+    import importlib
+    import itertools
+    import duckdb
+    from vtlengine.Exceptions import VTLEngineException
+    from vtlengine.DataTypes import Date, Integer, Number
+    from vtlengine.Model import Component, Role
+    mod = importlib.import_module("vtlengine." + file[:-3].replace(os.sep, "."))
+    fn = getattr(mod, fname, None)
+    if fn is None:
+        rec.note("mapper %s:%s is not a module-level function: not driven" % (file, fname))
+        return
+    comps = {"Id_1": Component(name="Id_1", data_type=Integer, role=Role.IDENTIFIER, nullable=False),
+             "Me_d": Component(name="Me_d", data_type=Date, role=Role.MEASURE, nullable=True),
+             "Me_1": Component(name="Me_1", data_type=Number, role=Role.MEASURE, nullable=True)}
+    base = [()] + [(k,) for k in kws] + list(itertools.combinations(kws, 2))
+    for combo in base:
+        for tail in ("", ' "Id_1"', ' me_d "2014-02-31"', " {x} %s"):
+            msg = ("Some Error: " + " ".join(combo) + tail).strip()
+            args = []
+            for p in params:
+                if p == params[0]:
+                    args.append(duckdb.Error(msg))
+                elif "name" in p:
+                    args.append("DS_1")
+                elif "comp" in p:
+                    args.append(comps)
+                else:
+                    args.append(None)
+            rec.count("mapper_calls")
+            try:
+                r = fn(*args)
+                bad = None if (r is None or isinstance(r, (VTLEngineException, duckdb.Error))) else "returns %r" % (r,)
+            except VTLEngineException:
+                bad = None
+            except duckdb.Error:
+                bad = None
+            except Exception as e:  # noqa: BLE001
+                bad = "%s: %s" % (type(e).__name__, e)
+            cls = "+".join(combo) or "no-known-keyword"
+            rec.case(("mapper", fname, cls, bad is None), "mapper-ok" if bad is None else "mapper-fails",
+                     sample={"function": file + ":" + fname, "message": msg} if not tail and len(combo) < 2 else None)
+            if bad:
+                rec.violation("C26:mapper:%s:%s:%s:constructing-the-error-fails" % (file, fname, cls),
+                              "%s(%r, ...) -> %s" % (fname, msg, bad), {"kind": "mapper", "file": file, "fn": fname, "message": msg})
+                break
+
+
 def _set_output(X, name):
     if hasattr(X, "set_dataset_output"):
         X.set_dataset_output(name)
@@ -194,6 +261,10 @@ class Check:
                                   "%s raises %s(%r) with keywords %s; message needs %s -> constructing it fails (%s)" % (
                                       where, s["cls"], code, s["kw"], sorted(need), err),
                                   {"kind": "site", "file": s["file"], "line": s["line"], "cls": s["cls"], "code": code, "kw": s["kw"]})
+        # error mappers: driven through every message class they distinguish (decides **kwargs sites dynamically)
+        raw_sites = sites(src)
+        for file, fname, params, kws in mapper_functions(raw_sites):
+            drive_mapper(rec, file, fname, params, kws)
         # catalogue self-consistency: every message formats with its own placeholders
         for code, entry in CAT.items():
             try:
@@ -220,6 +291,13 @@ class Check:
         harness.boot()
         import vtlengine.Exceptions as X
         from vtlengine.Exceptions.messages import centralised_messages as CAT
+        if data["kind"] == "mapper":
+            r2 = harness.Recorder()
+            src = os.path.join(harness.REPO, "src", "vtlengine")
+            for file, fname, params, kws in mapper_functions(sites(src)):
+                if file == data["file"] and fname == data["fn"]:
+                    drive_mapper(r2, file, fname, params, kws)
+            return bool(r2.violations)
         if data["kind"] == "site":
             cls = getattr(X, data["cls"])
             try:
